@@ -400,6 +400,7 @@ func (c *Ctx) watchdog(limit time.Duration) {
 // interp.NewExecEnv starts from a known store.
 func cleanEnv() {
 	tmp := os.Getenv("TMPDIR")
+	rd := os.Getenv("VERIF_RUNDIR")
 	path := os.Getenv("PATH")
 	gd := os.Getenv("GODEBUG")
 	gr := os.Getenv("GORACE")
@@ -412,6 +413,9 @@ func cleanEnv() {
 	}
 	if tmp != "" {
 		os.Setenv("TMPDIR", tmp)
+	}
+	if rd != "" {
+		os.Setenv("VERIF_RUNDIR", rd)
 	}
 }
 
@@ -516,4 +520,15 @@ func ReplayOne[T any](c *Ctx, raw []byte, f func(c *Ctx, cs T)) {
 		os.Exit(4)
 	}
 	Run(c, cs, f)
+}
+
+// ScratchDir creates a fresh directory for this worker below the driver's run
+// directory (removed by the driver) or below TMPDIR (solo / replay runs).
+func (c *Ctx) ScratchDir(tag string) string {
+	base := os.Getenv("VERIF_RUNDIR")
+	d, err := os.MkdirTemp(base, fmt.Sprintf("scratch-%s-%d-", tag, c.Shard))
+	if err != nil {
+		panic(err)
+	}
+	return d
 }
